@@ -563,6 +563,11 @@ func (s *Store[K, V]) DeleteWithSecondary(key K) error {
 	_, index := s.index(key)
 	shard := s.shards[index]
 	shard.mu.Lock()
+	// after Close a Delete has no effect, on the secondary cache either
+	if shard.closed {
+		shard.mu.Unlock()
+		return nil
+	}
 	entry, ok := shard.get(key)
 	if ok {
 		shard.delete(entry)
